@@ -72,7 +72,7 @@ def run(ctx):
                     if i < 0:
                         continue
                     for j in range(i, min(i + 200, len(reqs))):
-                        f = [x.strip() for x in reqs[j].split(" | ")]
+                        f = [x.strip() for x in c02.untag(reqs[j]).split(" | ")]
                         if f[0] == "shot" and len(f) >= 5:
                             ops, rep = f[2], ("stabilizer" if f[4].startswith("T") else "vector")
                             toks = ops.replace(";", " ").split()
@@ -114,13 +114,16 @@ def run(ctx):
                 himpl = himpl + vlib.read_lines(os.path.join(sdir, "impl.txt"))
                 ctx.note("failing-input search: Born statistics on %d circuits whose traces disagree with the model" % len(cands))
     items = []
-    wide_fail, wide_n = [], 0
+    wide_fail, wide_n, perm_n = [], 0, 0
     for r, a in zip(hreqs, himpl):
-        if r.startswith("wide |"):
-            # wide registers: the only register value of non-zero probability is computed classically by the harness
-            wide_n += 1
+        if r.startswith("wide |") or r.startswith("perm |"):
+            # wide registers / user-defined basis-permuting gates under a fulfilled condition: the only register value of
+            # non-zero probability is computed classically by the harness
+            wide_n += r.startswith("wide |")
+            perm_n += r.startswith("perm |")
             if a != "same":
-                wide_fail.append({"req": r, "impl": a, "why": "a register value of probability zero occurred on a wide register: " + a[:200], "class": "not-born"})
+                wide_fail.append({"req": r, "impl": a, "why": "a register value of probability zero occurred %s: " % (
+                    "on a wide register" if r.startswith("wide |") else "with a user-defined (matrix-only) increment gate applied under a fulfilled classical condition") + a[:200], "class": "not-born"})
             continue
         tag = None
         if r.startswith("w:"):
@@ -143,13 +146,17 @@ def run(ctx):
     known = {f["id"]: f for f in vlib.load_known(ctx.pid) if f.get("status") == "open"}
     fails, tested, minp = list(wide_fail), 0, 1.0
     ctx.coverage["wide_register_circuits"] = wide_n
+    ctx.coverage["user_gate_permutation_circuits"] = perm_n
+    ctx.coverage["second_runs_on_the_same_object"] = sum(1 for it in items if it["kind"] in ("again", "tuples-again"))
+    ctx.coverage["user_gate_circuits"] = sum(1 for it in items if any(t in it["ops"].split() for t in ("Inc2", "Inc3", "Inc4", "Mix")))
     theorem_float_checks = 0
     for it in items:
         b = born.get((it["nq"], it["ops"]))
         if b is None:
             fails.append({"req": it["req"], "why": "no reference distribution"})
             continue
-        if it["kind"] == "hist":
+        if it["kind"] in ("hist", "again"):
+            # `again`: the histogram of a SECOND execution on the same Circuit object - the same law
             obs = parse_pairs(it["ans"])
             exp = b
         else:
@@ -175,7 +182,10 @@ def run(ctx):
             minp = min(minp, p)
             if not ok_born:
                 fails.append({"req": it["req"], "impl": it["ans"][:300], "expected": {str(k): v for k, v in exp.items()},
-                              "why": "histogram is not a Born-rule sample: G=%.1f df=%d p=%.3g impossible=%s" % (g, df, p, impossible),
+                              "why": "%s is not a Born-rule sample: G=%.1f df=%d p=%.3g impossible=%s" % (
+                                  {"again": "histogram of the SECOND execution on the same Circuit object (same shot count)",
+                                   "tuples-again": "2-shot registers of repeated executions of ONE Circuit object"}.get(it["kind"], "histogram"),
+                                  g, df, p, impossible),
                               "class": "not-born"})
         else:
             # witness of a listed finding: report it only while it still fails AND behaves as predicted
